@@ -2076,3 +2076,74 @@ def _slice_bounds(b, fd, op, val, depth=0):
             return _slice_bounds(b, fd, args[1], val, depth + 1)
         return _slice_bounds(b, fd, args[0], val, depth + 1)
     return None
+
+
+
+def rule_domain_term_on_every_path(ctx, cfg='prod-all'):
+    """B = P1 + Q_1 * domain + sum H_i * m_i: the signer, the verifier, the blind signer and both proof functions compute `domain` and add
+    `Q_1 * domain` - for *every* number of messages, the empty list included.  In every function that calls `calculate_domain`: a product with the
+    domain as one factor is formed in the function's own body, in a block that dominates every success return.  (Folded into the closure of
+    `msg_terms.map_or(IDENTITY, |sum| Q1 * domain + sum)` the term is dropped exactly when there is no message: signing and verifying then
+    disagree for L = 0, which no fixture visits.)"""
+    from flow import accept_blocks
+    prog, eng = ctx.prog(cfg), ctx.eng(cfg)
+    n = 0
+    for p, b in sorted(prog.bodies.items()):
+        if not p.startswith('bbsplus::') or b.from_expansion or b.kind == 'Closure':
+            continue
+        fd = eng.fndep(p)
+        doms = [(bi, t) for bi, t in b.calls() if (local_target(eng, t) or '').endswith('::calculate_domain')]
+        if not doms:
+            continue
+        n += 1
+        acc = [bi for bi, kind, extra in accept_blocks(fd)] or list(b.exits)
+        # the local(s) holding the domain: the payload of the call's Result, through `?` and copies
+        holders = set()
+        work = [t['dst']['l'] for bi, t in doms]
+        for _ in range(40):
+            if not work:
+                break
+            l = work.pop()
+            if l in holders:
+                continue
+            holders.add(l)
+            for l2, ds in fd.defs.items():
+                for kind, bi2, x in ds:
+                    ops = []
+                    if kind == 'assign':
+                        rv = x['rv']
+                        ops = [rv.get('op')] if rv.get('k') in ('use', 'cast') else []
+                    elif kind == 'call' and (x.get('callee') or '').endswith(('Try::branch', 'From::from', 'Clone::clone', 'Into::into')):
+                        ops = x['args'][:1]
+                    if any(isinstance(o, dict) and o.get('k') in ('copy', 'move') and o['pl']['l'] == l for o in ops):
+                        work.append(l2)
+        prods = [bi for bi, t in b.calls() if (t.get('callee') or '').endswith(('Mul::mul', 'MulAssign::mul_assign'))
+                 and any(a.get('k') in ('copy', 'move') and a['pl']['l'] in holders for a in t['args'])]
+        # the domain put into a list of scalars for a multi-scalar multiplication (`scalars[0] = domain`), or handed to one
+        for bi, st in b.stmts():
+            rv = st.get('rv') or {}
+            if st['k'] == 'assign' and st['dst'].get('p') and rv.get('k') == 'use' and rv['op'].get('k') in ('copy', 'move') and rv['op']['pl']['l'] in holders:
+                prods.append(bi)
+            if st['k'] == 'assign' and rv.get('k') == 'agg' and rv.get('ak') in ('array', 'tuple') and any(o.get('k') in ('copy', 'move') and o['pl']['l'] in holders for o in rv.get('ops') or []):
+                prods.append(bi)
+        ok = bool(prods) and any(all(b.dominates(pb, a) for a in acc) for pb in prods)
+        if not ok:
+            # the domain handed to a function of the crate that forms the product (a shared `compute_b(.., domain, ..)`): judged there
+            for bi, t in b.calls():
+                tg = local_target(eng, t)
+                if tg is None or tg not in prog.bodies or not all(b.dominates(bi, a) for a in acc):
+                    continue
+                for k, a_ in enumerate(t['args']):
+                    if a_.get('k') in ('copy', 'move') and a_['pl']['l'] in holders and k + 1 <= prog.bodies[tg].arg_count:
+                        cb = prog.bodies[tg]
+                        cfd = eng.fndep(tg)
+                        cacc = [x for x, kd, ex in accept_blocks(cfd)] or list(cb.exits)
+                        cpr = [cbi for cbi, ct in cb.calls() if (ct.get('callee') or '').endswith(('Mul::mul', 'MulAssign::mul_assign'))
+                               and any(o.get('k') in ('copy', 'move') and cfd.resolve_place(o['pl'])[0] == k + 1 for o in ct['args'])]
+                        stores = [cbi for cbi, st_ in cb.stmts() if st_['k'] == 'assign' and st_['dst'].get('p') and (st_.get('rv') or {}).get('k') == 'use'
+                                  and st_['rv']['op'].get('k') in ('copy', 'move') and cfd.resolve_place(st_['rv']['op']['pl'])[0] == k + 1]
+                        if (cpr + stores) and any(all(cb.dominates(pb, a2) for a2 in cacc) for pb in cpr + stores) and cb.kind != 'Closure':
+                            ok = True
+        yield Ob('RF-P', '%s#domain-term' % p, ok, 'Q_1 * domain is formed in the function itself, on every path to a success return', b.span,
+                 fact={'products_with_the_domain': len(prods), 'success_returns': len(acc)}, expected='a product that dominates every success return')
+    yield Ob('RF-P', 'bbsplus#domain-terms', n >= 3, 'functions that compute the domain', '', fact=n, expected='>= 3', nontrivial=False)
